@@ -86,7 +86,28 @@ def choiceNR (p : List α) (size : Nat) : List (List α) → List Nat → Option
 def posIdx (p : List α) : List Nat :=
   (List.range p.length).filter (fun i => match p[i]? with | some x => decide (0 < x) | none => false)
 
+/-- one entry of `p = utilities / np.nansum(utilities); p[np.isnan(p)] = 0` -/
+def propW (s : α) : Option α → α
+  | some v => v / s
+  | none => 0
+
+/-- `p = utilities / np.nansum(utilities); p[np.isnan(p)] = 0` -/
+def propWeights (u : List (Option α)) (s : α) : List α := u.map (propW s)
+
 end noReplace
+
+section propBatch
+variable {α : Type} [Add α] [Div α] [LT α] [DecidableLT α] [OfNat α 0]
+
+/-- `simple_batch(method="proportional")` with numpy's `choice` computed by the model instead of supplied: the
+selection is a function of the utilities and the uniform draws alone. -/
+def simpleBatchProp (isInf : α → Bool) (u : List (Option α)) (b : Nat) (uss : List (List α)) :
+    Except SelErr (List (Nat × List (Option α))) :=
+  match choiceNR (propWeights u (nansum u)) (min b (countSome u)) uss [] with
+  | some c => simpleBatch (β := α) isInf u b .proportional [] c
+  | none => .error .oracle
+
+end propBatch
 
 section shrink
 
